@@ -671,6 +671,11 @@ func (ev *Evaluator) instr(env map[ssa.Value]Val, in ssa.Value) (Val, error) {
 		if (isFloat(in.Type()) || isFloat(in.X.Type())) && !isConstVal(x) {
 			return Term{Fn: "conv[" + types.TypeString(in.Type(), nil) + "]", Args: []Val{x}}, nil
 		}
+		// an integer narrowed to fewer bits (int16(n), uint32(lo)) is not the same number: on a value the bit-vector
+		// domain does not track (a call's result, a quotient) the conversion stays visible as an operator
+		if NarrowingInt(in.X.Type(), in.Type()) && !isConstVal(x) {
+			return Term{Fn: "conv[" + types.TypeString(in.Type().Underlying(), nil) + "]", Args: []Val{x}}, nil
+		}
 		return x, nil // string/[]byte/named-type conversions: value-preserving for our symbolic purposes
 	case *ssa.MultiConvert:
 		x, err := ev.val(env, in.X)
@@ -1524,6 +1529,10 @@ func (ev *Evaluator) call(env map[ssa.Value]Val, in *ssa.Call) (Val, error) {
 				}
 			}
 		}
+		// copy writes the elements of its destination: the evaluator keeps slices by value and cannot follow that
+		if callee.Name() == "copy" {
+			return nil, &Undecided{in.Pos(), "copy(dst, src) rewrites dst in place, which the evaluation by value does not follow"}
+		}
 		return Term{Fn: "builtin." + callee.Name(), Args: args}, nil
 	case *ssa.Function:
 		return ev.apply(callee, args, in.Pos())
@@ -1625,6 +1634,13 @@ func (ev *Evaluator) apply(fn *ssa.Function, args []Val, pos token.Pos) (Val, er
 				}
 			}
 		}
+		// a function outside the module that is handed a slice the evaluator keeps by value may rewrite it in place
+		// (sort.Slice, rand.Shuffle, io.ReadFull): unless it is known to only read, the evaluation stops here
+		for _, a := range args {
+			if _, modelled := a.(*SliceV); modelled && !readsOnly(key) {
+				return nil, &Undecided{pos, "a slice kept by value is handed to " + key + ", which may rewrite it in place"}
+			}
+		}
 		t := Term{Fn: key, Args: args}
 		ev.Trace = append(ev.Trace, t.String())
 		return t, nil
@@ -1644,6 +1660,20 @@ func (ev *Evaluator) apply(fn *ssa.Function, args []Val, pos token.Pos) (Val, er
 	return out.Ret, nil
 }
 
+// readsOnly: standard-library functions that do not write through a slice argument.
+func readsOnly(name string) bool {
+	for _, p := range []string{"strconv.", "strings.", "fmt.", "errors.", "unicode", "math/bits.", "(*regexp.Regexp).", "regexp.",
+		"bytes.Equal", "bytes.Has", "bytes.Index", "bytes.LastIndex", "bytes.Contains", "bytes.Count", "bytes.Compare", "bytes.ToUpper", "bytes.ToLower",
+		"bytes.Trim", "bytes.NewReader", "bytes.NewBuffer", "bytes.Split", "bytes.Fields", "bytes.Join", "bytes.Repeat",
+		"encoding/json.Valid", "encoding/json.Unmarshal", "encoding/json.NewDecoder", "encoding/hex.", "(encoding/binary.", "encoding/binary.",
+		"unicode/utf8.", "github.com/stretchr/testify/", "reflect.", "(*bytes.Buffer).Write", "(*strings.Builder).Write", "html/template."} {
+		if strings.HasPrefix(name, p) {
+			return true
+		}
+	}
+	return false
+}
+
 // panicked carries a callee's panic up to the evaluation of the calling function.
 type panicked struct{ V Val }
 
@@ -1660,6 +1690,34 @@ func pkgPath(fn *ssa.Function) string {
 }
 
 func isConstVal(v Val) bool { _, ok := v.(Const); return ok }
+
+// NarrowingInt: a conversion between integer types to a type of fewer bits (int, uint and uintptr have WordBits).
+func NarrowingInt(from, to types.Type) bool {
+	bitsOf := func(t types.Type) int {
+		b, ok := t.Underlying().(*types.Basic)
+		if !ok || b.Info()&types.IsInteger == 0 {
+			return 0
+		}
+		switch b.Kind() {
+		case types.Int8, types.Uint8:
+			return 8
+		case types.Int16, types.Uint16:
+			return 16
+		case types.Int32, types.Uint32:
+			return 32
+		case types.Int64, types.Uint64:
+			return 64
+		case types.Int, types.Uint, types.Uintptr:
+			if WordBits > 0 {
+				return WordBits
+			}
+			return 64
+		}
+		return 0
+	}
+	f, t := bitsOf(from), bitsOf(to)
+	return f > 0 && t > 0 && t < f
+}
 
 func isFloat(t types.Type) bool {
 	b, ok := t.Underlying().(*types.Basic)
